@@ -213,4 +213,53 @@ def debug_frame():
 
 
 def run(name):
-    return dict(cfg_invariance=cfg_invariance, shared_state_scan=shared_state_scan, send_sync=send_sync, debug_frame=debug_frame)[name]()
+    return dict(cfg_invariance=cfg_invariance, shared_state_scan=shared_state_scan, send_sync=send_sync, debug_frame=debug_frame, jumpcheck=jumpcheck)[name]()
+
+
+def jumpcheck():
+    """C06, the closed arithmetic fact: the reference jump polynomials J_ref (recomputed by tools/jumppoly.py) satisfy
+    J_ref(T) == T^(2^k) as linear maps, for all five reference engines and both exponents.  Decided by a Verus-verified
+    executable checker (tools/gen_jumpcheck.py): Verus proves `check(..) == true ==> forall s. poly(T, J, s, n) == iter(T, s, 2^k)`,
+    `verus --compile` builds it and the run returns true/false per (engine, exponent)."""
+    import importlib.util
+    pr = PartResult('jumpcheck')
+    t0 = time.time()
+    d = os.path.join(WORK, 'jumpcheck')
+    os.makedirs(d, exist_ok=True)
+    sp = importlib.util.spec_from_file_location('gen_jumpcheck', os.path.join(ROOT, 'tools', 'gen_jumpcheck.py'))
+    gj = importlib.util.module_from_spec(sp)
+    sp.loader.exec_module(gj)
+    src = os.path.join(d, 'jumpcheck.rs')
+    open(src, 'w').write(gj.gen())
+    cmd = ['verus', src, '--compile', '--triggers-mode', 'silent', '--rlimit', '200', '--num-threads', '8', '--output-json', '--', '-C', 'opt-level=3']
+    r = subprocess.run(cmd, cwd=d, stdout=subprocess.PIPE, stderr=subprocess.PIPE, text=True)
+    verified = errors = None
+    try:
+        import json
+        js = json.loads(r.stdout[r.stdout.index('{'):])
+        verified = js['verification-results']['verified']
+        errors = js['verification-results']['errors']
+    except Exception:
+        pass
+    pr.cmd = ' '.join(cmd) + ' ; ./jumpcheck'
+    pr.info = dict(checker_source=src, functions_verified=verified, verification_errors=errors)
+    binp = os.path.join(d, 'jumpcheck')
+    if errors != 0 or not os.path.exists(binp):
+        pr.undecided.append('the jump-polynomial checker did not verify/compile (verified=%s errors=%s): %s' % (verified, errors, r.stderr[-800:]))
+        pr.wall_s = time.time() - t0
+        return pr
+    run = subprocess.run([binp], cwd=d, stdout=subprocess.PIPE, stderr=subprocess.PIPE, text=True)
+    lines = [l for l in run.stdout.splitlines() if l.startswith('JUMPCHECK')]
+    if len(lines) != 10:
+        pr.undecided.append('checker produced %d result lines' % len(lines))
+    for l in lines:
+        _, eng, label, exp, verdict = l.split()
+        if verdict == 'OK':
+            pr.obs.append(Ob('jumpcheck:%s:%s' % (eng, label), ['C06'], DISCHARGED, 'verus-verified checker (compiled, executed)', fn='reference engine ' + eng,
+                             kind='closed-fact', text='J_ref(T) == T^(2^k) on every state, %s %s %s' % (eng, label, exp)))
+        else:
+            # the recomputed polynomial is not x^(2^k) mod minpoly(T): an inconsistency of the reference computation, not of /repo
+            pr.undecided.append('reference polynomial for %s %s does not equal T^(2^k): %s' % (eng, label, l))
+    os.remove(binp)
+    pr.wall_s = time.time() - t0
+    return pr
